@@ -33,6 +33,9 @@ type InstCase struct {
 	Limit         int  `json:"limit"`
 	Corrupt       bool `json:"corrupt"`
 	Faults        bool `json:"faults"`
+	// Peers: that many other instances publish PeerBlobs snapshots each, interleaved (several downloaders
+	// compete for the memory limits while newer snapshots supersede the ones not yet merged)
+	Peers int `json:"peers,omitempty"`
 }
 
 var instSeq atomic.Int64
@@ -134,15 +137,25 @@ func checkInstance(c InstCase, o *vcore.Obs) error {
 	wg.Add(1)
 	go func() {
 		defer wg.Done()
+		peers := c.Peers
+		if peers < 1 {
+			peers = 1
+		}
 		for i := 0; i < c.PeerBlobs && !stopWriters.Load(); i++ {
-			name := snapshot.Name(dbname, "peer", "GX", time.Now())
-			if c.Corrupt && i%3 == 1 {
-				b.Put(name, []byte("garbage"))
-			} else {
-				m := model.Snap{FormatVersion: 3, CompatVersion: 1, Meta: model.Meta{InstanceID: "peer", DatabaseName: dbname},
-					DBIs: []model.DBI{{Name: "data", Entries: []model.KV{{Key: []byte(fmt.Sprintf("p%d", i%4)), Val: model.ValOf([]byte("pv")), TS: uint64(time.Now().UnixNano())}}}}}
-				pb, _ := m.ToGogo().Marshal()
-				b.Put(name, gz(pb))
+			for p := 0; p < peers; p++ {
+				inst := "peer"
+				if p > 0 {
+					inst = fmt.Sprintf("peer%d", p)
+				}
+				name := snapshot.Name(dbname, inst, "GX", time.Now())
+				if c.Corrupt && (i+p)%3 == 1 {
+					b.Put(name, []byte("garbage"))
+				} else {
+					m := model.Snap{FormatVersion: 3, CompatVersion: 1, Meta: model.Meta{InstanceID: inst, DatabaseName: dbname},
+						DBIs: []model.DBI{{Name: "data", Entries: []model.KV{{Key: []byte(fmt.Sprintf("p%d", i%4)), Val: model.ValOf([]byte("pv")), TS: uint64(time.Now().UnixNano())}}}}}
+					pb, _ := m.ToGogo().Marshal()
+					b.Put(name, gz(pb))
+				}
 			}
 			time.Sleep(300 * time.Microsecond)
 		}
@@ -168,16 +181,19 @@ func checkInstance(c InstCase, o *vcore.Obs) error {
 	o.ClassIf(!c.Native, "shadow")
 	o.ClassIf(c.Corrupt, "corrupt-peer-blobs")
 	o.ClassIf(c.Faults, "storage-faults")
+	o.ClassIf(c.Peers > 1, "several-peers")
+	o.ClassIf(c.Peers > 1 && c.Limit == 1, "several-peers-limit-1")
 	return nil
 }
 
 func TestC17Instance(t *testing.T) {
 	vcore.Run(t, vcore.Config{Property: "C17", Inflight: true,
-		Rule: "one real instance under the race detector with everything running: Sync (1 ms intervals), snapshot cleaner enabled (1 ms), tomb sweeper enabled (1 ms), per-instance downloaders with memory limits 1-3, two event subscribers (a Handle whose callback fails after k events, a Next() loop that closes after k events - possibly while an event is being delivered), an application writer, a peer publishing valid and undecodable blobs; cancellation after 0-30 ms; Sync must return within 5 s, all helpers finish, no race report; non-trivial = the bucket saw > 4 operations before cancellation"},
+		Rule: "one real instance under the race detector with everything running: Sync (1 ms intervals), snapshot cleaner enabled (1 ms), tomb sweeper enabled (1 ms), per-instance downloaders with memory limits 1-3 for 1-4 peers that publish interleaved (newer snapshots superseding ones not yet merged), two event subscribers (a Handle whose callback fails after k events, a Next() loop that closes after k events - possibly while an event is being delivered), an application writer, a peer publishing valid and undecodable blobs; cancellation after 0-30 ms; Sync must return within 5 s, all helpers finish, no race report; non-trivial = the bucket saw > 4 operations before cancellation"},
 		func(t *rapid.T) InstCase {
 			return InstCase{Native: rapid.Bool().Draw(t, "native"), CancelAfterUs: rapid.SampledFrom([]int{0, 200, 2000, 8000, 30000}).Draw(t, "cancel"),
 				Writes: rapid.IntRange(0, 40).Draw(t, "writes"), PeerBlobs: rapid.IntRange(0, 12).Draw(t, "peer"),
 				SubCloseAt: rapid.IntRange(0, 4).Draw(t, "subclose"), HandleFailAt: rapid.IntRange(0, 4).Draw(t, "handlefail"),
-				Limit: rapid.IntRange(1, 3).Draw(t, "limit"), Corrupt: rapid.Bool().Draw(t, "corrupt"), Faults: rapid.Bool().Draw(t, "faults")}
+				Limit: rapid.IntRange(1, 3).Draw(t, "limit"), Corrupt: rapid.Bool().Draw(t, "corrupt"), Faults: rapid.Bool().Draw(t, "faults"),
+				Peers: rapid.IntRange(1, 4).Draw(t, "peers")}
 		}, checkInstance)
 }
